@@ -6,7 +6,10 @@ Import ListNotations.
 Open Scope string_scope.
 Open Scope N_scope.
 
-(* status class: 0 = 401, 1 = 403, 2 = anything else (the handler answered) *)
+(* status class: 0 = 401, 1 = 403, 2 = anything else (the handler answered). The harness reports 3 for "another 4xx"
+   only on cases it marks loose (handlers whose validation of path or body may answer before or after the privilege
+   check): there a refusal by the model (403) and an acceptance by the model both agree with an observed other-4xx as
+   long as the model does not say 401. *)
 Definition cls (st : N) : N := if st =? 401 then 0 else if st =? 403 then 1 else 2.
 
 Record case := mk_case {
@@ -16,19 +19,40 @@ Record case := mk_case {
   cs_users : list user;
   cs_rq : request;
   cs_obs : N;              (* observed status class *)
-  cs_effect : N }.         (* observed effect: 0 none, 1 some, 2 not observable for this case *)
+  cs_effect : N;           (* observed effect: 0 none, 1 some, 2 not observable for this case *)
+  cs_loose : bool }.
+
+(* the kind the harness claims for a route must be what the handler facts translated from the source say *)
+Definition kind_guards (k : rkind) : list string :=
+  match k with
+  | KAdminOnly => g_admin
+  | KWrite => ["write"]
+  | KQuery _ => ["query"]
+  | KRepoSee | KListRepos _ => g_see
+  | _ => []
+  end.
+Definition kind_supported (r : route) (k : rkind) : bool :=
+  match k with
+  | KOpaque => true
+  | KPublic => public r
+  | _ => match find_guard handler_guards (r_method r) (r_pattern r) with
+         | None => false
+         | Some g => hsig_eqb (r_sig r) SigUser && list_eqb String.eqb (g_guards g) (kind_guards k)
+         end
+  end.
 
 Definition model_case (c : case) : option (N * list effect) :=
   match nth_error routes (cs_route c) with
   | None => None
-  | Some r => Some (serve shape_now (cs_cfg c) (cs_users c) r (cs_kind c) (cs_rq c))
+  | Some r => if kind_supported r (cs_kind c)
+              then Some (serve shape_now (cs_cfg c) (cs_users c) r (cs_kind c) (cs_rq c)) else None
   end.
 
 Definition case_ok (c : case) : bool :=
   match model_case c with
   | None => false
   | Some (st, eff) =>
-      (cls st =? cs_obs c) &&
+      ((cls st =? cs_obs c) || (cs_loose c && (cs_obs c =? 3) && negb (cls st =? 0))) &&
       match cs_effect c with
       | 0 => match eff with [] => true | _ => false end
       | 1 => match eff with [] => false | _ => true end
@@ -43,11 +67,40 @@ Fixpoint mismatches_from (k : nat) (cs : list case) : list nat :=
   end.
 Definition mismatches := mismatches_from 0.
 
+(* listing cases: the repositories the server listed for this caller (None: the request was refused with 401) against
+   `serve .. (KListRepos dbs)`, dbs = the catalogue as the administrator sees it at that moment *)
+Record lcase := mk_lcase {
+  lc_route : nat; lc_cfg : config; lc_users : list user; lc_rq : request; lc_dbs : list string;
+  lc_observed : option (list string) }.
+Definition lcase_ok (c : lcase) : bool :=
+  match nth_error routes (lc_route c) with
+  | None => false
+  | Some r =>
+      kind_supported r (KListRepos (lc_dbs c)) &&
+      match serve shape_now (lc_cfg c) (lc_users c) r (KListRepos (lc_dbs c)) (lc_rq c), lc_observed c with
+      | (200, [EffList l]), Some o => list_eqb String.eqb l o
+      | (401, []), None => true
+      | _, _ => false
+      end
+  end.
+Fixpoint lmismatches_from (k : nat) (cs : list lcase) : list nat :=
+  match cs with
+  | [] => []
+  | c :: r => if lcase_ok c then lmismatches_from (S k) r else k :: lmismatches_from (S k) r
+  end.
+Definition lmismatches := lmismatches_from 0.
+
 (* what today's table leaves open, by (name, method, pattern); and the prefix rules *)
 Definition open_now : list (string * string * string) :=
   map (fun r => (r_name r, r_method r, r_pattern r)) (open_routes shape_now routes).
-Definition unknown_prefixes_now : list string := map p_prefix (repair_prefixes prefixes).
-Definition known_prefixes_now : list string := map p_prefix (filter known_prefix prefixes).
+Definition unknown_prefixes_now : list string := map p_prefix (unexempt_prefixes open_findings prefixes).
+Definition known_prefixes_now : list string := map p_prefix (filter (exempt_prefix open_findings) prefixes).
+Definition unguarded_now : list (string * string) := map (fun g => (g_method g, g_pattern g)) (unguarded open_findings handler_guards).
+Definition exempt_unguarded_now : list (string * string) :=
+  map (fun g => (g_method g, g_pattern g))
+      (filter (fun g => negb (decides g) && negb (auth_only_ok (g_method g) (g_pattern g))) handler_guards).
+Definition unexpected_guards_now : list (string * string) :=
+  map (fun g => (g_method g, g_pattern g)) (filter (fun e => negb (expected_ok handler_guards e)) expected_guards).
 
 (* requirement list of a simple statement type from the (source-tied) table; an unknown type is treated as
    administrator-only so that a missing row shows as a disagreement *)
@@ -55,3 +108,32 @@ Definition req_stmt (ty stmt_db : string) : stmt :=
   match required_of model_privs ty stmt_db with Some s => s | None => [RAdmin] end.
 (* a NoPrivileges entry asks for nothing: authorize_database answers true for it, so it is kept as is *)
 Definition req_stmt_nopriv (ty : string) : stmt := req_stmt ty "".
+
+(* the same with the marker of the statement's case in AuthorizeQueryForRwUser. special: the instance names the account
+   "rwuser" (DROP USER / SET PASSWORD) or the database "_internal" (DROP DATABASE) *)
+Definition req_stmt_i (ty stmt_db : string) (special : bool) : stmt :=
+  (req_stmt ty stmt_db ++ rw_marker model_rw_rules ty special)%list.
+
+(* statement cases: what the REAL RequiredPrivileges method returned for a statement the REAL parser produced from the
+   matrix's text (harness/cmd/c19 stmts), against the requirement list the matrix takes from the table for it *)
+Record real_entry := mk_real { re_admin : bool; re_rwuser : bool; re_name : string; re_priv : N }.
+Definition priv_of_bits (n : N) : priv :=
+  match n with 0 => NoPriv | 1 => ReadPriv | 2 => WritePriv | _ => AllPriv end.
+Definition real_to_req (e : real_entry) : reqpriv :=
+  if re_admin e then (if re_rwuser e then RAdminRw else RAdmin)
+  else if re_rwuser e then RDb (re_name e) (priv_of_bits (re_priv e)) else RAdmin.
+Definition reqpriv_eqb (a b : reqpriv) : bool :=
+  match a, b with
+  | RAdmin, RAdmin | RAdminRw, RAdminRw | RRwAllow, RRwAllow | RRwDeny, RRwDeny => true
+  | RDb d p, RDb d' p' => String.eqb d d' && priv_eqb p p'
+  | _, _ => false
+  end.
+Definition strip_markers (s : stmt) : stmt := filter (fun rp => negb (is_rwallow rp) && negb (is_rwdeny rp)) s.
+Record scase := mk_scase { sc_claimed : stmt; sc_real : list real_entry }.
+Definition scase_ok (c : scase) : bool := list_eqb reqpriv_eqb (strip_markers (sc_claimed c)) (map real_to_req (sc_real c)).
+Fixpoint smismatches_from (k : nat) (cs : list scase) : list nat :=
+  match cs with
+  | [] => []
+  | c :: r => if scase_ok c then smismatches_from (S k) r else k :: smismatches_from (S k) r
+  end.
+Definition smismatches := smismatches_from 0.
